@@ -96,6 +96,9 @@ def gen_programs(ctx, n, salt):
         r = vlib.rng(ctx.seed, "%s-parenfn-%d" % (salt, i))
         p = rg.Gen(r, size=r.randint(1, 3)).program()
         out.append(("gen-paren-fn", rg.single(rg.EXT_PRINT + rg.Render(rg.naming_distinct(p), fn_parens=1 + i % 2).program(p), False)))
+        rs = rg.Render(rg.naming_distinct(p))
+        rs.sugar = True
+        out.append(("gen-call-sugar", rg.single(rg.EXT_PRINT + rs.program(p), False)))
     # block expressions that initialise module globals (see oracle_stream): all shadow variants and a sample of
     # the out-of-scope uses
     r = vlib.rng(ctx.seed, salt + "-ginit")
@@ -276,6 +279,12 @@ def oracle_stream(ctx, n, salt):
         for j, (ss, k, b, lv) in enumerate(rg.plant_violations(p, r, 3)):
             items.append({"kind": "planted", "p": p, "na": nd, "at": (ss, k, b), "cls": "planted", "leak": lv,
                           "fn_parens": (1 + i % 2) if j == 2 else 0})
+        if i % 2 == 1:
+            # calls written as arrow calls `a -> f(b)`, call statements as prime calls `f' a, b`: the same Lua
+            rs = rg.Render(nd)
+            rs.sugar = True
+            items.append({"kind": "files-pair", "cls": "call-sugar", "leak": False, "p": p,
+                          "a": {"/main.sy": rg.Render(nd).program(p)}, "b": {"/main.sy": rs.program(p)}})
         if i % 2 == 0:
             # every function literal inside 1-2 redundant parentheses: the same Lua
             k = 1 + (i // 2) % 2
@@ -455,7 +464,9 @@ def always(ctx):
                            "use before the definition / in another branch / in another global / in start -> rejected; (f) every function "
                            "literal of a generated program, and of a hand-written family (recursive local / global definitions, "
                            "shadowing a global, blob fields using self, arguments, nested closures), inside 1-2 redundant "
-                           "parentheses -> the same Lua as without them; a third of the planted uses are rendered that way"}
+                           "parentheses -> the same Lua as without them; a third of the planted uses are rendered that way; (g) every call "
+                           "with arguments of a generated program written as an arrow call `a -> f(b)` and every call statement "
+                           "as a prime call `f' a, b` -> the same Lua as with plain calls"}
 
 
 def describe(it, v):
